@@ -304,6 +304,24 @@ func TestC20F_Reprice(t *testing.T) {
 			}
 			convs[i] = c
 		}
+		if rapid.IntRange(0, 5).Draw(t, "tightPair") == 0 {
+			// two conversions with the same tight slip: the first is accepted on its own volume,
+			// the second (sorted after it: the sort is stable) raises the block's volume
+			slip := rapid.SampledFrom([][]byte{{0, 0}, {0, 30}, {0, 40}, {0, 120}}).Draw(t, "tightSlip")
+			mk := func(toQi bool, pct int64) c20fConv {
+				q := new(big.Int).Div(new(big.Int).Mul(b.FlowAmount, big.NewInt(pct)), big.NewInt(100))
+				if !toQi {
+					q = misc.QuaiToQi(h, env.Rate, env.Difficulty, q)
+				}
+				if q.Sign() <= 0 {
+					q = big.NewInt(1)
+				}
+				return c20fConv{Conversion: true, ToQi: toQi, Value: q, Data: slip}
+			}
+			convs = []c20fConv{mk(rapid.Bool().Draw(t, "tightDir0"), rapid.SampledFrom([]int64{20, 100}).Draw(t, "tightPct0")),
+				mk(rapid.Bool().Draw(t, "tightDir1"), rapid.SampledFrom([]int64{100, 150, 250, 400}).Draw(t, "tightPct1"))}
+			n = 2
+		}
 		dump := env.dump()
 		dump["prime_number"], dump["kquai_discount"], dump["flow_amount"], dump["rate_increasing"], dump["new_rate"] = b.PrimeNumber, b.KQuaiDiscount.String(), b.FlowAmount.String(), b.ExchangeRateIncreasing, b.NewRate.String()
 		var cl []string
